@@ -227,7 +227,9 @@ func (self AnalyzedRangeLiteralExpression) String() string {
 	return fmt.Sprintf("%s..%s%s", operandString(self.Start), endIsInclusiveStr, operandString(self.End))
 }
 func (self AnalyzedRangeLiteralExpression) Type() Type     { return NewRangeType(self.Range) }
-func (self AnalyzedRangeLiteralExpression) Constant() bool { return true }
+func (self AnalyzedRangeLiteralExpression) Constant() bool {
+	return self.Start.Constant() && self.End.Constant()
+}
 
 //
 // List literal
@@ -526,7 +528,9 @@ func (self AnalyzedIndexExpression) String() string {
 	return fmt.Sprintf("%s[%s]", operandString(self.Base), self.Index)
 }
 func (self AnalyzedIndexExpression) Type() Type     { return self.ResultType }
-func (self AnalyzedIndexExpression) Constant() bool { return self.Base.Constant() }
+func (self AnalyzedIndexExpression) Constant() bool {
+	return self.Base.Constant() && self.Index.Constant()
+}
 
 //
 // Member expression
